@@ -403,6 +403,38 @@ def check(prog, run):
             run.check(len(trues) == 1 and not others, "R4", "verdict-stores", "initialised true once, otherwise only stored false (%d times)" % (len(vals) - 1),
                       "verdict flag is assigned %s" % vals)
             false_bbs = {v[0] for v in vals if v[1] == 0}
+            # which condition clears the verdict: every direct `flag = false` must sit under one of the documented conditions
+            #   input given and missing | input given, present and rejected by the hex validator | no input given at all
+            c04.ROLE_NAMES.clear()
+            for i_ in range(1, vb["argc"] + 1):
+                c04.ROLE_NAMES[i_] = mir.debug_name(vb, i_)
+            c04.CUR_BODY[:] = [vb]
+            chains = []
+            for fb_ in sorted(false_bbs):
+                gs_ = guards.guards_of(vb, fb_)
+                canon = []
+                for (s__, d__, t__) in gs_:
+                    sg = c04.signature(d__, t__)
+                    txt = sym.show(d__)
+                    m_ = None
+                    for inp in ("video", "audio"):
+                        if sg in ("variant(param:%s)=1" % inp, "!is_none(param:%s)" % inp, "is_some(param:%s)" % inp):
+                            m_ = "given " + inp
+                        elif sg in ("is_none(param:%s)" % inp, "variant(param:%s)=0" % inp, "!is_some(param:%s)" % inp):
+                            m_ = "none " + inp
+                    if m_ is None and sg.startswith(("exists(", "!exists(")):
+                        m_ = ("present" if sg.startswith("exists") else "missing")
+                    if m_ is None and sg.startswith("variant(") and "validate_hex_file" in txt:
+                        m_ = "hex-err" if sg.endswith("=1") else "hex-ok"
+                    canon.append(m_ or ("?" + sg))
+                chains.append(tuple(canon))
+            c04.CUR_BODY[:] = []
+            allowed = {("given video", "missing"), ("given video", "present", "hex-err"), ("given audio", "missing"), ("given audio", "present", "hex-err"), ("none video", "none audio"), ("none audio", "none video")}
+            for ch in chains:
+                run.check(ch in allowed, "R4", "verdict cleared under %s" % (" & ".join(ch) or "no condition"), "a documented invalidity condition",
+                          "the verdict is set to `invalid` under the condition chain %s, which is not one of: input given but missing / given, present but not valid hex / no input given" % (list(ch),))
+            if chains:
+                run.check(any(set(ch) == {"none video", "none audio"} for ch in chains) or len(chains) < 3, "R4", "verdict: no input given", "invalid when neither input is given", "no `invalid` verdict for the case that neither input is given")
             # every "status": "error" check push is followed (same straight-line region) by a false store
             errs = []
             for bb_, t_, name_, info_ in mir.calls(vb):
@@ -447,14 +479,24 @@ def check(prog, run):
         hb = u.bodies[vh]
         c04.ROLE_NAMES.clear()
         sigs = []
+        raw = []
         for ex in flow.exits(hb):
             if ex["kind"] == "err":
                 gs = guards.guards_of(hb, ex["bb"])
                 if gs:
                     sigs.append(sym.show(gs[-1][1]) + " " + str(guards.truth(gs[-1][2])))
-        want = {"empty": lambda s: "is_empty" in s and "True" in s, "odd": lambda s: "Rem" in s and ("Ne" in s or "Eq" in s), "non-hex": lambda s: "is_ascii_hexdigit" in s and "False" in s}
+                    raw.append((gs[-1][1], guards.truth(gs[-1][2])))
+
+        def odd(d, tr):
+            # len % 2 != 0 (or == 1) taken, or len % 2 == 0 not taken
+            if not (d[0] == "bin" and d[1] in ("Ne", "Eq") and d[2][0] == "bin" and d[2][1] == "Rem" and d[2][3][:2] == ("const", 2) and d[3][0] == "const"):
+                return False
+            is_len = any(isinstance(y, tuple) and y[:1] == ("call",) and str(y[1]).split("::")[-1] == "len" for y in sym.walk(d[2][2]))
+            c = d[3][1]
+            return is_len and ((d[1] == "Ne" and c == 0 and tr is True) or (d[1] == "Eq" and c == 1 and tr is True) or (d[1] == "Eq" and c == 0 and tr is False) or (d[1] == "Ne" and c == 1 and tr is False))
+        want = {"empty": lambda d, tr, s: "is_empty" in s and tr is True, "odd": lambda d, tr, s: odd(d, tr), "non-hex": lambda d, tr, s: "is_ascii_hexdigit" in s and tr is False}
         for k_, pred in want.items():
-            run.check(any(pred(s) for s in sigs), "R4", "hex-guard %s" % k_, "rejects %s input" % k_, "the hex validator has no rejection guarded by the `%s` condition (guards: %s)" % (k_, sigs))
+            run.check(any(pred(d, tr, sym.show(d)) for (d, tr) in raw), "R4", "hex-guard %s" % k_, "rejects %s input" % k_, "the hex validator has no rejection guarded by the `%s` condition (guards: %s)" % (k_, sigs))
     # ---- R5
     ic = fn(u, "info_command")
     if ic:
